@@ -30,3 +30,11 @@ SPEC = f'(re.++ (re.opt {ci("v")}) {EPOCH} {RELEASE} {PRE} {POST} {DEV} {LOCAL})
 
 # PEP440::from_str never rejects after the regex matched (integer parse failures become 0, see evidence)
 PARSES_OK = 're.all'
+
+# ---- group structure the Verus contract of `FromStr for PEP440` relies on (unit pep440_parse, TRUSTED[pep440-regex-groups]): `release` is not optional;
+# `pre_n` lies inside `pre` next to the non-optional `pre_l`; `post_n1` and `post_n2` lie in the two alternatives of `post` (never both); `dev_n` inside `dev`
+SKELETON = "^<re>[(epoch)!]?(release)[(pre:<re>(pre_l)<re>[(pre_n)]?)]?[(post:{-(post_n1)|<re>(post_l)<re>[(post_n2)]?})]?[(dev:<re>(dev_l)<re>[(dev_n)]?)]?[+(local)]?$"
+GROUPS = {"epoch": DIGITS, "release": RELEASE, "pre_n": DIGITS, "post_n1": DIGITS, "post_n2": DIGITS, "dev_n": DIGITS,
+          "pre_l": alt("a", "b", "c", "rc", "alpha", "beta", "pre", "preview")}
+UNIQUE_WHY = ("from_str reads each number group on its own and tests `post` / `dev` for presence only, so it does not rely on a unique decomposition of the "
+              "whole text; what it relies on is which groups can be present together, read off the skeleton")
